@@ -69,6 +69,13 @@ fn parse_header(header: &str) -> Result<Header, ParseError> {
             })
         }
         Some(UNKNOWN) => {
+            if header.ends_with(PROTOCOL_SUFFIX) {
+                return Ok(Header {
+                    header: Cow::Borrowed(header),
+                    addresses: Addresses::Unknown,
+                });
+            }
+
             while iterator.next_if(|&s| s != NEWLINE).is_some() {}
 
             Addresses::Unknown
